@@ -4,6 +4,7 @@
 
 #include <string>
 
+#include "c12.h"
 #include "conc.h"
 #include "engine.h"
 
@@ -13,6 +14,7 @@ struct CaseBox {
   std::string engine;     // conc | c12 | c14a | c19
   std::string property;
   ConcCase conc;
+  C12Case c12;
   J generic;              // engines that keep their case as JSON
 };
 
@@ -20,6 +22,7 @@ CaseBox gen_case(const std::string& property, const std::string& part, const std
 Outcome exec_case(CaseBox& cb, bool keep_log, Stats* stats);
 J case_to_json(const CaseBox& cb);
 bool case_from_json(const J& j, CaseBox* cb);
+int64_t part_size(const std::string& property, const std::string& part, const std::string& tier);  // enumerated parts; -1 otherwise
 void set_recorded_schedule(CaseBox* cb, const Outcome& o);  // make the case explicit (replayable without its PRNG)
 
 }  // namespace sim
